@@ -116,11 +116,12 @@ def engine_for(prop):
 
 
 def execute(prop, seed, idx, tree=None, keep=False, tier="quick",
-            want_tree=False):
+            want_tree=False, progress_fd=None):
     """One simulated run. Returns a plain dict (picklable)."""
     eng = engine_for(prop)
     cs = ChoiceStream(seed=seed_for(seed, prop, idx), tree=tree)
     log = EventLog(keep=keep)
+    log.progress_fd = progress_fd
     work = Path(os.environ.get("VERIF_SCRATCH", "/dev/shm")) / \
         f"hyverif-{os.getpid()}" / f"{prop}-{idx}"
     ctx = Ctx(prop, tier, load_known(prop) if tree is not None else
@@ -185,13 +186,14 @@ def execute_isolated(prop, seed, idx, tree=None, keep=False, tier="quick",
         gc.collect()
         gc.freeze()
     r, w = os.pipe()
+    pfd = os.memfd_create("hyverif-progress")
     pid = os.fork()
     if pid == 0:
         code = 0
         try:
             os.close(r)
             res = execute(prop, seed, idx, tree=tree, keep=keep, tier=tier,
-                          want_tree=want_tree)
+                          want_tree=want_tree, progress_fd=pfd)
             data = pickle.dumps(res)
             with os.fdopen(w, "wb") as f:
                 f.write(data)
@@ -209,11 +211,27 @@ def execute_isolated(prop, seed, idx, tree=None, keep=False, tier="quick",
             chunks.append(b)
     _, status = os.waitpid(pid, 0)
     data = b"".join(chunks)
+    try:
+        last = os.pread(pfd, 128, 0).decode("utf-8", "replace").strip()
+    except OSError:
+        last = ""
+    os.close(pfd)
     if not data:
-        return {"idx": idx, "result": "harness_error", "sig": "", "inv": "",
-                "detail": f"isolated run ended without a result (wait status "
-                          f"{status})", "digest": "", "nev": 0, "kinds": "",
-                "stats": {}, "known_seen": {}, "states": [], "ndraws": 0}
+        base = {"idx": idx, "inv": "", "digest": "", "nev": 0, "kinds": "",
+                "stats": {}, "known_seen": {}, "states": [], "ndraws": 0,
+                "tree": tree}
+        if os.WIFSIGNALED(status) and os.WTERMSIG(status) in (4, 6, 7, 8, 11):
+            # the interpreter running hydrodiy was brought down
+            sig = os.WTERMSIG(status)
+            base.update(result="violation", inv="interpreter_died",
+                        sig=f"interpreter_died_signal_{sig}@{last}",
+                        detail=f"the process executing the run was killed by "
+                               f"signal {sig} during operation {last!r}")
+            return base
+        base.update(result="harness_error", sig="",
+                    detail=f"isolated run ended without a result (wait status "
+                           f"{status}, last operation {last!r})")
+        return base
     return pickle.loads(data)
 
 
@@ -287,14 +305,22 @@ def minimise_and_report(prop, seed, tier, vres):
             return r["tree"]
         return None
 
-    tree0 = vres["tree"]
-    norm = test(tree0)
-    if norm is None:
-        return None, "violation did not reproduce from its own recorded tree"
-    budget = getattr(engine_for(prop), "MINIMISE", {})
-    tree, nexec = minimise(norm, test, **budget)
-    final = execute_isolated(prop, seed, idx, tree=tree, keep=True, tier=tier,
-                             want_tree=True)
+    tree0 = vres.get("tree")
+    if tree0 is None:
+        # the run died before it could hand back its choice tree: the replay
+        # file re-generates it from (seed, run index)
+        again = execute_isolated(prop, seed, idx, tier=tier)
+        if again["result"] != "violation" or again["sig"] != sig:
+            return None, "crash did not reproduce from its seed"
+        tree, nexec, final = None, 1, again
+    else:
+        norm = test(tree0)
+        if norm is None:
+            return None, "violation did not reproduce from its own recorded tree"
+        budget = getattr(engine_for(prop), "MINIMISE", {})
+        tree, nexec = minimise(norm, test, **budget)
+        final = execute_isolated(prop, seed, idx, tree=tree, keep=True,
+                                 tier=tier, want_tree=True)
     OUT.joinpath("replays").mkdir(parents=True, exist_ok=True)
     path = OUT / "replays" / f"{prop}-{seed}-{idx}.json"
     js = {"property": prop, "seed": seed, "run_index": idx, "tier": tier,
@@ -302,7 +328,7 @@ def minimise_and_report(prop, seed, tier, vres):
           "detail": final.get("detail"), "digest": final["digest"],
           "minimiser_executions": nexec,
           "replay_cmd": f"./vcheck replay {path}",
-          "trace": final.get("trace", []), "tree": final["tree"]}
+          "trace": final.get("trace", []), "tree": final.get("tree")}
     path.write_text(json.dumps(js, indent=1, default=str))
     ok, txt = confirm_fresh(path, sig)
     if not ok:
